@@ -245,7 +245,7 @@ theorem LookupDec.new_ok_or_jassertion (n : Nat) :
   · exact .inl ⟨_, rfl⟩
 
 /-- What `optionsFromFrame` returns when the first row is an options row. -/
-theorem optionsFromFrame_ok {f : Frame} {o : Options} {rest : List Row} {delimited : Bool}
+theorem optionsFromFrame_ok_hdr {f : Frame} {o : Options} {rest : List Row} {delimited : Bool}
     {opts : ParserOptions} (hf : f.rows = .options o :: rest)
     (ho : optionsFromFrame f delimited = .ok opts) :
     opts = {
@@ -269,7 +269,7 @@ theorem optionsFromFrame_ok {f : Frame} {o : Options} {rest : List Row} {delimit
       simp
 
 /-- `Decoder.__init__` keeps the options it was given and allocates the three tables. -/
-theorem DecState.new_ok {opts : ParserOptions} {a : AdapterKind} {d : DecState}
+theorem DecState.new_ok_hdr {opts : ParserOptions} {a : AdapterKind} {d : DecState}
     (h : DecState.new opts a = .ok d) : d.opts = opts ∧ d.adapter = a := by
   unfold DecState.new at h
   simp only [bind, Except.bind, pure, Except.pure] at h
